@@ -314,11 +314,12 @@ fn compile_script(testcases: &[&TestCase], config: &TestCaseConfig, salt: &str) 
         let footer = generate_divider(salt, index);
         expressions.push("".to_string());
         expressions.push(format!("{DIVIDER_EXIT_CODE_VARIABLE}=$?"));
-        expressions.push(format!(r#"echo "{}""#, &footer));
+        // (by the builtins, whatever functions or aliases of these names exist)
+        expressions.push(format!(r#"\builtin echo "{}""#, &footer));
         if config.output_stream != Some(OutputStreamControl::Combined) {
-            expressions.push(format!(r#"1>&2 echo "{}""#, &footer));
+            expressions.push(format!(r#"1>&2 \builtin echo "{}""#, &footer));
         }
-        expressions.push(format!("unset {DIVIDER_EXIT_CODE_VARIABLE}"));
+        expressions.push(format!("\\builtin unset {DIVIDER_EXIT_CODE_VARIABLE}"));
     }
 
     Ok(expressions.join("\n"))
